@@ -189,6 +189,18 @@ def compare(val, ref, exact=True, dtype=True, rtol=1e-9, atol=1e-11):
     """Return None if equal else (kind, message)."""
     v = _as_np(val)
     r = _as_np(ref)
+    if isinstance(v, np.ma.MaskedArray) or isinstance(r, np.ma.MaskedArray):
+        # masked results: same mask, same values where not masked (the data
+        # under the mask is unspecified)
+        if v.shape != r.shape:
+            return ("shape", f"shape {v.shape} != numpy {r.shape}")
+        mv, mr = np.ma.getmaskarray(v), np.ma.getmaskarray(r)
+        if not np.array_equal(mv, mr):
+            return ("value", f"masks differ: got {_short(mv)} numpy {_short(mr)}")
+        fill = 0 if v.dtype.kind in "biufc" else None
+        if fill is not None:
+            v = np.where(mv, fill, np.ma.getdata(v))
+            r = np.where(mr, fill, np.ma.getdata(r))
     if v.shape != r.shape:
         return ("shape", f"shape {v.shape} != numpy {r.shape}")
     if dtype and v.dtype != r.dtype:
@@ -409,7 +421,7 @@ class Explorer:
                 out.fail(
                     {
                         "kind": "construct-raise",
-                        "signature": f"construct-raise:{exc_sig(e)}",
+                        "signature": f"construct-raise:{exc_sig(e)}:{op.name}" + ("+zerosize" if any(np.size(npool[i]) == 0 for i in idxs) else ""),
                         "case": case,
                         "detail": f"{prog_str(case)}\n NumPy evaluates this program but dask_array raised at construction: {type(e).__name__}: {str(e)[:300]}",
                         "script": program_script(case),
@@ -527,7 +539,7 @@ def replay_program(case, monitor):
         except REFUSAL_TYPES:
             return None
         except Exception as e:
-            return {"kind": "construct-raise", "signature": f"construct-raise:{exc_sig(e)}", "detail": f"{prog_str(case)}\n dask_array raised at construction: {type(e).__name__}: {str(e)[:300]}"}
+            return {"kind": "construct-raise", "signature": f"construct-raise:{exc_sig(e)}:{op.name}" + ("+zerosize" if any(np.size(npool[i]) == 0 for i in idxs) else ""), "detail": f"{prog_str(case)}\n dask_array raised at construction: {type(e).__name__}: {str(e)[:300]}"}
         dpool.append(dv)
         npool.append(np.asarray(nv) if not isinstance(nv, np.ndarray) else nv)
     out = ShardOut()
